@@ -111,9 +111,14 @@ pub trait Handler: Send + Sync + 'static {
 
     /// Possibly re-orders the entries of a manifest before processing.
     ///
-    /// The slice contains the current position of each entry; the handler
-    /// may permute it.
-    fn manifest_order(&self, _manifest_uri: &str, _order: &mut [usize]) { }
+    /// Receives the file names of the entries in their current order. If
+    /// it returns a permutation of the indexes into that list, the entries
+    /// are processed in that order.
+    fn manifest_order(
+        &self, _manifest_uri: &str, _files: &[Vec<u8>]
+    ) -> Option<Vec<usize>> {
+        None
+    }
 
     /// Returns the forced outcome of the validation run about to start.
     fn run_outcome(&self, _cache_dir: &Path) -> RunOutcome {
@@ -184,6 +189,27 @@ pub fn acquire<T: ?Sized>(lock: &T, mode: LockMode) {
 pub fn release(lock: usize, mode: LockMode) {
     if let Some(handler) = handler() {
         handler.release(lock, mode)
+    }
+}
+
+/// Lets the handler impose the processing order of manifest entries.
+pub fn manifest_order<T>(
+    manifest_uri: &str, items: &mut Vec<T>, file: impl Fn(&T) -> Vec<u8>
+) {
+    let Some(handler) = handler() else { return };
+    let files: Vec<_> = items.iter().map(file).collect();
+    let Some(order) = handler.manifest_order(manifest_uri, &files) else {
+        return
+    };
+    let mut seen = vec![false; items.len()];
+    assert_eq!(order.len(), items.len(), "manifest order: bad length");
+    for idx in &order {
+        assert!(!seen[*idx], "manifest order: not a permutation");
+        seen[*idx] = true;
+    }
+    let mut old: Vec<Option<T>> = items.drain(..).map(Some).collect();
+    for idx in order {
+        items.push(old[idx].take().expect("permutation"));
     }
 }
 
